@@ -2,7 +2,9 @@ import AiocoapModel.Basic.Bytes
 import AiocoapModel.Blockwise.BlockOpt
 import AiocoapModel.Blockwise.TimeoutDict
 /-!
-Model of the block-wise server machinery, as of the nine `fix:` commits of C06 on top of the
+Model of the block-wise server machinery, as of the twelve `fix:` commits of C06 (the three of round 4:
+the path a `Site` strips is part of the block key; an empty BERT block with the more flag fails the
+size test; of overlapping requests for the beginning the latest decides — `Overlap.lean`) on top of the
 pinned snapshot (ValueError → 4.08; later block never answered with the complete body; stale
 rendering dropped when a newer complete response is sent; a final block longer than its block size
 → 4.00; a completed assembly leaves the spool; a kept rendering is dropped when the handler raises
@@ -26,8 +28,10 @@ none; an observable resource runs block-wise requests through the same spool and
   (`ContinueException.to_message`, `ConstructionRenderableError.to_message`,
    `pipe.error_to_message`)               aiocoap/blockwise.py:38-57, error.py:82-99, pipe.py:232-285
 
-One request is processed atomically (the handler does not yield to another request of
-the same resource while it renders); a handler maps the assembled request to a response message
+`step` answers one request in one go: the handler is applied on the spot.  Handlers that suspend —
+so that several requests of one resource are under way at once — are modelled in `Overlap.lean`
+(`carrive` / `cfinish`, the same functions split at the `await`; an arrival completed on the spot is
+`step`).  A handler maps the assembled request to a response message
 or raises (`Outcome.error`: the code the exception is rendered with — `RenderableError.to_message().code`,
 5.00 for any other exception).  Not modelled: token / message id / message type of the stored
 request (`_append_request_block` copies them from the latest block), the diagnostic payload of
@@ -55,6 +59,10 @@ structure Msg where
   block1 : Option Blk
   block2 : Option Blk
   payload : Bytes
+  /-- `message._original_request_path`: the Uri-Path the request arrived with, which a `Site` leaves
+  on the path-stripped copy it hands to the resource (resource.py:400-444); `none` when the resource
+  is given the message directly (no such attribute) -/
+  origPath : Option (List Bytes) := none
 deriving Repr, DecidableEq
 
 /-- a response message -/
@@ -81,15 +89,17 @@ Block1/Block2 are not in `opts` to begin with -/
 def cacheKeyOpts (opts : List Opt) : List Opt :=
   opts.filter (fun o => !(o.1 == OBSERVE || isNoCacheKey o.1))
 
-/-- `_extract_block_key`: `(remote.blockwise_key, code, (code, cache-key options))` -/
+/-- `_extract_block_key`: `(remote.blockwise_key, code, getattr(message, "_original_request_path",
+None), (code, cache-key options))` -/
 structure Key where
   rkey : Nat
   code : Nat
+  path : Option (List Bytes)
   opts : List Opt
 deriving Repr, DecidableEq
 
 def blockKey (m : Msg) : Key :=
-  { rkey := m.remote.key, code := m.code, opts := cacheKeyOpts m.opts }
+  { rkey := m.remote.key, code := m.code, path := m.origPath, opts := cacheKeyOpts m.opts }
 
 -- Block1 ---------------------------------------------------------------------------------
 
@@ -101,9 +111,10 @@ deriving Repr, DecidableEq
 /-- the size test of `_append_request_block` (message.py:450-461), which is also
 `BlockwiseTuple.is_valid_for_payload_size` (optiontypes.py:194-203) that `feed_and_take` applies to
 block 0: a block with the more flag has exactly the block size (BERT: a multiple of 1024); a final
-block of a size exponent below 7 is at most one block long (a final BERT block is not constrained) -/
+block of a size exponent below 7 is at most one block long (a final BERT block is not constrained).
+A BERT block with the more flag is one or more whole blocks -- not none (`payloadsize > 0`). -/
 def sizeOk (b : Blk) (len : Nat) : Bool :=
-  if b.more then (len == b.size || (b.szx == 7 && len % b.size == 0))
+  if b.more then (len == b.size || (b.szx == 7 && len % b.size == 0 && decide (0 < len)))
   else (b.szx == 7 || decide (len ≤ b.size))
 
 /-- `self._append_request_block(next_block)` with `b = next_block.opt.block1`:
